@@ -61,12 +61,18 @@ def val_out(x: Any) -> str | None:
     return str(fr.numerator) if fr.denominator == 1 else f"{fr.numerator}/{fr.denominator}"
 
 
-def fill_arg(f: Any) -> Any:
+def fill_arg(f: Any, as_int: bool = False) -> Any:
+    """`fill_value` argument of a query: null = NaN (the default), "raw" = None, otherwise the number — as a Python
+    `int` when the query carries `"fi": true` (so that `0` and `0.0`, both falsy, are both exercised)."""
     if f is None:
         return float("nan")
     if f == "raw":
         return None
-    return float(Fraction(f))
+    return int(Fraction(f)) if as_int else float(Fraction(f))
+
+
+# numeric fill values used by the generators: falsy zero (int and float), a negative and a fractional number
+FILLS: list[tuple[str, bool]] = [("0", False), ("0", True), ("-7777", False), ("5/2", False), ("-30", True)]
 
 
 class Real:
@@ -124,7 +130,7 @@ class Real:
         self.mw._buffer = self.rb  # pylint: disable=protected-access
         if k in ("widx", "wts"):
             a, b = (q["i"], q["j"]) if k == "widx" else (to_dt(q["a"]), to_dt(q["b"]))
-            res = [val_out(x) for x in self.rb.window(a, b, fill_value=fill_arg(q.get("fill")))]
+            res = [val_out(x) for x in self.rb.window(a, b, fill_value=fill_arg(q.get("fill"), bool(q.get("fi"))))]
             if q.get("fill") is None:
                 via = [val_out(x) for x in self.mw[a:b]]
                 if via != res:
@@ -389,9 +395,11 @@ def gen_queries(rng: random.Random, case: dict, rich: bool) -> list[dict]:
         pairs = rng.sample(pairs, min(len(pairs), 40))
     for i, j in pairs:
         qs.append({"k": "widx", "i": i, "j": j, "fill": None})
-    for i, j in rng.sample(pairs, min(len(pairs), 6)):
-        qs.append({"k": "widx", "i": i, "j": j, "fill": FILL_NUM})
-        qs.append({"k": "widx", "i": i, "j": j, "fill": "raw"})
+    for n, (i, j) in enumerate(rng.sample(pairs, min(len(pairs), 8)) + [(None, None)] * len(FILLS)):
+        f, as_int = FILLS[n % len(FILLS)]
+        qs.append({"k": "widx", "i": i, "j": j, "fill": f, "fi": as_int})
+        if n < 4:
+            qs.append({"k": "widx", "i": i, "j": j, "fill": "raw"})
     newest = ref.newest if ref.newest is not None else 0
     grid = list(range(newest - cap - 1, newest + 3))
     offs = sub_offsets(period)
@@ -411,9 +419,12 @@ def gen_queries(rng: random.Random, case: dict, rich: bool) -> list[dict]:
         tpairs.append((a, b))
     for a, b in tpairs:
         qs.append({"k": "wts", "a": a, "b": b, "fill": None})
-    for a, b in rng.sample(tpairs, min(len(tpairs), 8)):
-        qs.append({"k": "wts", "a": a, "b": b, "fill": FILL_NUM})
-        qs.append({"k": "wts", "a": a, "b": b, "fill": "raw"})
+    whole = (align + (newest - cap) * period, align + (newest + 2) * period)
+    for n, (a, b) in enumerate(rng.sample(tpairs, min(len(tpairs), 8)) + [whole] * len(FILLS)):
+        f, as_int = FILLS[(n + 1) % len(FILLS)]
+        qs.append({"k": "wts", "a": a, "b": b, "fill": f, "fi": as_int})
+        if n < 4:
+            qs.append({"k": "wts", "a": a, "b": b, "fill": "raw"})
     for i in range(-cap - 2, cap + 3):
         qs.append({"k": "ati", "i": i})
     for t in (times if rich else rng.sample(times, min(len(times), 16))):
